@@ -114,6 +114,21 @@ def new_handler():
     async def h_answers(message, session_id):
         return ph.create_response(message.id, {"ok": 0}), None
 
+    async def h_raises_key(message, session_id):
+        raise KeyError()
+
+    async def h_raises_unprintable(message, session_id):
+        class E(Exception):
+            def __str__(self):
+                raise RuntimeError("no text")
+        raise E()
+
+    async def h_raises_recursion(message, session_id):
+        raise RecursionError("deep")
+
+    ph.register_method("verif/raises-keyerror", h_raises_key)
+    ph.register_method("verif/raises-unprintable", h_raises_unprintable)
+    ph.register_method("verif/raises-recursion", h_raises_recursion)
     for name, fn in {"verif/raises": h_raises, "verif/raises-empty": h_raises_empty, "verif/nonsense": h_nonsense,
                      "verif/silent": h_silent, "verif/answers": h_answers}.items():
         ph.register_method(name, fn)
@@ -136,7 +151,7 @@ def kind_of(method, msgid):
     """what the dispatcher of a bare ProtocolHandler (see new_handler) does with this method"""
     if method is None or method == "":
         return "noMethod"
-    if method in ("verif/raises", "verif/raises-empty"):
+    if isinstance(method, str) and method.startswith("verif/raises"):
         return "handlerRaised"
     if method == "verif/nonsense":
         return "handlerNonsense"
@@ -148,10 +163,48 @@ def kind_of(method, msgid):
 
 
 # literal strings usable as (never issued) session ids: falsy, format-hostile, look-alikes
-GHOSTS = ["", "%s", "{0}", "a\nb", "sessions", "0", "None", "\u2028", "x" * 1000]
+GHOSTS = ["", "%s", "{0}", "a\nb", "sessions", "0", "None", "\u2028", "x" * 1000, '{"id":1}', "[NaN]", "data: x", ":"]
 
 
 def run_case(case):
+    """case["debug"]: the root logger is at DEBUG during the case (a host that configured logging);
+    case["twin"]: a SECOND ProtocolHandler is alive and busy next to the one observed — after every operation it gets a
+    mirror operation (create / initialize / update / delete / cleanup(0) / clear on its own manager)."""
+    from .dispatch_h import debug_logging
+
+    restore = debug_logging() if case.get("debug") else None
+    try:
+        return _run_case(case)
+    finally:
+        if restore:
+            restore()
+
+
+def _mirror(twin, code, now):
+    """keep the second handler busy with the same kind of operation"""
+    from chuk_mcp.protocol.messages.json_rpc_message import JSONRPCMessage
+
+    mgr = twin.session_manager
+    live = list(mgr.list_sessions())
+    if code == "C":
+        mgr.create_session({"name": "twin"}, "2025-06-18")
+    elif code == "I":
+        m = JSONRPCMessage.model_validate({"jsonrpc": "2.0", "id": 1, "method": "initialize", "params": {"clientInfo": {"name": "twin"}}})
+        _loop().run_until_complete(twin.handle_message(m, live[0] if live else None))
+    elif code == "U" and live:
+        mgr.update_activity(live[0])
+    elif code == "D" and live:
+        mgr.delete_session(live[-1])
+    elif code == "X":
+        mgr.cleanup_expired(0)
+    elif code == "K":
+        mgr.clear_all_sessions()
+    elif code == "R":
+        m = JSONRPCMessage.model_validate({"jsonrpc": "2.0", "id": 2, "method": "nosuch/method"})
+        _loop().run_until_complete(twin.handle_message(m, live[0] if live else None))
+
+
+def _run_case(case):
     from chuk_mcp.protocol.messages.json_rpc_message import JSONRPCMessage
 
     clock = Clock()
@@ -174,6 +227,9 @@ def run_case(case):
 
     try:
         with patched_clock(clock):
+            twin = new_handler() if case.get("twin") else None
+            if twin is not None:
+                twin.session_manager.create_session({"name": "already there"}, "2025-06-18")
             handler = new_handler()
             if case.get("supply") is not None:
                 handler.session_manager = scripted_manager(list(case["supply"]))
@@ -317,6 +373,8 @@ def run_case(case):
                     st["new_sid"] = new_sid if new_sid is None else "<sid>"
                 else:
                     raise ValueError(f"unknown op {op!r}")
+                if twin is not None:
+                    _mirror(twin, code, clock.now)
                 st["snap"] = snapshot()
                 steps.append(st)
     except Exception as ex:  # the harness (or the code under it) raised: reported, never compared
